@@ -1,24 +1,28 @@
 (** * pubd/Rsync.v - [RsyncdStore::write] as a list of file-system operations
 
-    Executable model (definitions only) of src/server/pubd/rsync.rs 72-172:
+    Executable model (definitions only) of src/server/pubd/rsync.rs 72-190:
       1. create rsync/tmp-<serial> (83-98);
       2. save every object of the snapshot under it at the path of its URI relative to the
          base URI (100-114; an object outside the base is an error);
-      3. if rsync/current exists: rename it to rsync/old (122-140);
-      4. rename rsync/tmp-<serial> to rsync/current (142-156);
-      5. if rsync/old exists: remove it (158-170).
-    Every error is propagated. Step 3 fails when rsync/old is a non-empty directory (ENOTEMPTY),
-    which is what an interruption between 3 and 5 leaves behind: finding F11c.
+      3. if rsync/current exists: remove rsync/old if it exists (124-139, since e1f99c61), then
+         rename rsync/current to rsync/old (141-156);
+      4. rename rsync/tmp-<serial> to rsync/current (158-172);
+      5. if rsync/old exists: remove it (174-188).
+    Every error is propagated.
 
-    [variant] selects the procedure: [Pinned] is the code as it is; [Repaired] removes a stale
-    rsync/old before step 3 (the repair foreseen for F11c). [rsync_variant] is the one switch
-    the correspondence uses; the theorems of RsyncProofs.v name the variant explicitly. *)
+    [variant] selects the procedure: [Repaired] is the code of record (with the removal of a
+    stale rsync/old in step 3); [Pinned] is the procedure before commit e1f99c61, without that
+    removal: there step 3 fails when rsync/old is a non-empty directory (ENOTEMPTY), which is
+    what an interruption between steps 4 and 5 leaves behind, and every later write fails the
+    same way (finding F11c, kept as a regression example: [rsync_interrupted_then_stuck]).
+    [rsync_variant] is the one switch the correspondence uses; the theorems of RsyncProofs.v
+    name the variant explicitly. *)
 From KV Require Import base.Tac pubd.Objects pubd.Fs.
 Open Scope N_scope.
 
 Inductive variant : Type := Pinned | Repaired.
 (** The procedure of the tree under /repo. *)
-Definition rsync_variant : variant := Pinned.
+Definition rsync_variant : variant := Repaired.
 
 Definition rsync_dir : path := [NRsync].
 Definition current_dir : path := [NRsync; NCurrent].
